@@ -18,7 +18,7 @@ class Gen:
         self.rust = []       # rust source of each type
 
     # ---------------- enums ----------------
-    def gen_enum(self, name, repr_ty=None, maxval=None, implicit=False, probe=False):
+    def gen_enum(self, name, repr_ty=None, maxval=None, implicit=False, probe=False, subcatch=False):
         r = self.r
         repr_ty = repr_ty or r.choice(["u8", "u8", "u16", "u32", "i8", "i16", "i32", "u64", "i64"])
         nbytes, signed = PRIMS[repr_ty]
@@ -36,7 +36,7 @@ class Gen:
                     return k
             raise RuntimeError("no fresh discriminant")
         variants = []
-        has_catch = (maxval is None or maxval >= 255) and r.random() < 0.35 and not implicit
+        has_catch = (maxval is None or maxval >= 255 or subcatch) and r.random() < (0.6 if subcatch else 0.35) and not implicit
         has_default = (not has_catch) and r.random() < 0.35
         default_at = r.randrange(nvar) if has_default else -1
         for i in range(nvar):
@@ -80,6 +80,15 @@ class Gen:
             else:
                 src.append(f"    {name}::{v['name']} => ({i}, 0),")
         src.append("} } }")
+        # random constructor
+        src.append(f"impl {name} {{ pub fn mk(rng: &mut Rng) -> Self {{ match rng.below({len(variants)}) {{")
+        for i, v in enumerate(variants):
+            if v["catch"]:
+                src.append(f"    {i} => {name}::{v['name']}(rng.next() as {repr_ty}),")
+            else:
+                src.append(f"    {i} => {name}::{v['name']},")
+        src.append(f"    _ => {name}::{variants[0]['name'] if not variants[0]['catch'] else variants[-1]['name']},")
+        src.append("} } }")
         self.types.append(d)
         self.rust.append("\n".join(src))
         return d
@@ -97,11 +106,11 @@ class Gen:
             pre = 0
             choices = []
             if off == 0:
-                choices += ["prim", "prim", "arr", "u8bits", "bool", "byteenum", "multienum", "nested", "skipf"]
+                choices += ["prim", "prim", "arr", "u8bits", "bool", "byteenum", "multienum", "nested", "skipf", "subenum", "i8bits"]
             else:
-                choices += ["u8bits", "u8bits", "bool", "bool", "subenum", "pad", "skipf"]
+                choices += ["u8bits", "u8bits", "bool", "bool", "subenum", "subenum", "i8bits", "pad", "skipf"]
             if flat:
-                choices = [c for c in choices if c not in ("byteenum", "multienum", "nested", "subenum")]
+                choices = [c for c in choices if c not in ("byteenum", "multienum", "nested", "subenum", "i8bits")]
             c = r.choice(choices)
             f = {"name": fname, "pre": 0, "post": 0, "skip": False}
             if c == "pad":
@@ -124,9 +133,12 @@ class Gen:
             elif c == "bool":
                 b = 1 if r.random() < 0.8 else r.randint(1, 8 - off)
                 f.update(ty="bool", bits=b, kind="KBool", fty="raw", signed=False, width_attr=True)
+            elif c == "i8bits":
+                b = r.randint(1, min(7, 8 - off))
+                f.update(ty="i8", bits=b, kind="KByteT", fty="i8sub", signed=True, width_attr=True)
             elif c == "subenum":
-                b = r.randint(1, 8 - off)
-                e = self.gen_enum(f"{name}E{i}", "u8", maxval=(1 << b) - 1)
+                b = r.randint(1, min(7, 8 - off))
+                e = self.gen_enum(f"{name}E{i}", "u8", maxval=(1 << b) - 1, subcatch=True)
                 f.update(ty=e["name"], bits=b, kind="KByteT", fty="enum", enum=e["name"], signed=False, width_attr=True)
             elif c == "byteenum":
                 e = self.gen_enum(f"{name}E{i}", r.choice(["u8", "i8"]))
@@ -212,6 +224,17 @@ class Gen:
             else:
                 src.append(f"    v.push(le(ethercrab_wire::EtherCrabWireWriteSized::pack(&self.{f['name']}).as_ref()));")
         src.append("    v } }")
+        src.append(f"impl {name} {{ pub fn mk(rng: &mut Rng) -> Self {{ {name} {{")
+        for f in fields:
+            if f["ty"] == "bool":
+                src.append(f"    {f['name']}: rng.below(2) == 1,")
+            elif f["ty"] in PRIMS:
+                src.append(f"    {f['name']}: rng.next() as {f['ty']},")
+            elif "arr" in f:
+                src.append(f"    {f['name']}: {{ let mut a = [0u8; {f['arr']}]; for x in a.iter_mut() {{ *x = rng.next() as u8; }} a }},")
+            else:
+                src.append(f"    {f['name']}: {f['ty']}::mk(rng),")
+        src.append("} } }")
         self.types.append(d)
         self.rust.append("\n".join(src))
         return d
@@ -277,6 +300,16 @@ fn run_%(id)d(rng: &mut Rng, n: usize) {
         });
         let body = match r { Ok(s) => s, Err(_) => "\"res\":\"PANIC\"".to_string() };
         println!("{{\"t\":%(id)d,\"buf\":{},{}}}", bytes_json(&buf), body);
+    }
+    // pack direction: values constructed directly (every field over its full type range)
+    for _ in 0..(n / 2 + 1) {
+        let x = <%(name)s>::mk(rng);
+        let r = std::panic::catch_unwind(|| {
+            let f: Vec<String> = x.fields().iter().map(|v| format!("\"{}\"", v)).collect();
+            format!("\"dir\":\"pack\",\"f\":[{}],\"p\":{}", f.join(","), bytes_json(x.pack().as_ref()))
+        });
+        let body = match r { Ok(s) => s, Err(_) => "\"dir\":\"pack\",\"res\":\"PANIC\"".to_string() };
+        println!("{{\"t\":%(id)d,{}}}", body);
     }
 }
 '''
